@@ -219,3 +219,11 @@ func (s *sizeSeq) next() int {
 		return 1 + (r/4)%3000
 	}
 }
+
+// minWireLimit is the smallest MsgOnWireSizeLimit the scenarios use. Cloak's
+// stream- and session-closing frames carry up to 256 random bytes plus up to
+// 239 bytes of padding (first five frames) plus header and tag = 525 bytes,
+// whatever the limit; both shipped endpoints fix the limit at 16401, so
+// smaller limits than this would only exercise a configuration nobody can
+// select (closing frames failing with "obfs buffer too small").
+const minWireLimit = 600
